@@ -213,6 +213,27 @@ def r3_classification(ctx, cls, order, unguarded_ok=()):
         ctx.check(guarded, "R3", "%s attempt only if no earlier attempt matched" % k, f.where(t),
                   "the %s attempt is not guarded by `result is None`: an earlier classification would be overwritten" % k, f.qname,
                   "%s guard" % k)
+    # no attempt is skipped for some lines: a pre-filter in front of an attempt decides the classification with it
+    line_param = f.params()[1]
+    flow = C.flow_of(f)
+    for k, t in kinds:
+        extra = [(e, p) for e, p in C.facts_at(t) if not (U(e) == "result is None")]
+        for e, pol in extra:
+            full = flow.subst(e)
+            raw_pos = [n for n in ast.walk(full) if (
+                isinstance(n, ast.Subscript) and isinstance(n.value, ast.Name) and n.value.id == line_param) or (
+                isinstance(n, ast.Call) and isinstance(n.func, ast.Attribute) and n.func.attr in ("startswith", "endswith", "find", "index")
+                and isinstance(n.func.value, ast.Name) and n.func.value.id == line_param)]
+            if raw_pos:
+                ctx.bad("R3", "%s attempt is made for every line" % k, f.where(t),
+                        "the %s attempt is only made when `%s` holds, which looks at a fixed position of the RAW line (`%s`); the "
+                        "grammars skip leading blanks and tabs, so an indented %s never reaches its grammar and is classified as "
+                        "something else (or raises): classification must not depend on surrounding whitespace"
+                        % (k, U(e), U(raw_pos[0]), k), f.qname, "%s prefilter %s" % (k, U(e)))
+            else:
+                ctx.unknown("R3", "%s attempt is made for every line" % k, f.where(t),
+                            "the %s attempt is only made when `%s` (= %s) holds; whether that can exclude a line the grammar would "
+                            "match is not decided here" % (k, U(e), U(full)[:120]))
     for k, t in kinds:
         hp = [h for h in t.handlers]
         if k == "instruction":
